@@ -75,6 +75,9 @@ def _exec_manager_history(item):
     with warnings.catch_warnings(), contextlib.redirect_stdout(buf), contextlib.redirect_stderr(buf):
         warnings.simplefilter("ignore")
         try:
+            if item.get("preset"):
+                for s_ in SLOTS:
+                    apply_set(m, s_, 1, nominal=1, method=method)
             for call in item["hist"]:
                 op = call[0]
                 if op == "set":
@@ -122,8 +125,28 @@ c_Vary == {tla({"soil", "loads", "bore"})}
     chk.add_tlc(res)
     chk.checker_cmds.append(res.cmd)
     out = res.prints
-    # exhaustive, reduced alphabet: everything preset except soil / bore; depth 7
     return out
+
+
+def manager_exhaustive(chk: Check, t: str):
+    """EVERY continuation of at most 4 (thorough: 5) calls after a straight-line configuration, alphabet: soil / bore (two physical variants,
+    two nominal heights) and every other setter, set_design, find_design, rebuilt manager, unrelated run."""
+    mod = f"""---- MODULE MC_Manager ----
+EXTENDS Manager
+c_Slots == {tla(set(SLOTS))}
+c_Vary == {tla({"soil", "bore"})}
+====
+"""
+    k = 4 if t == "quick" else 5
+    cfg = ("INIT InitPreset\nNEXT Next\nCHECK_DEADLOCK FALSE\n" + f"CONSTANTS\n Slots <- c_Slots\n Vary <- c_Vary\n MaxCalls = {k}\n MaxFinds = 2\n"
+           + "INVARIANT ResultDependsOnPhysOnly\nINVARIANT Emit\n")
+    res = run_tlc("MC_Manager", cfg, extra_modules={"MC_Manager.tla": mod}, workers=1, timeout=1200)
+    require_tlc_ok(res, "Manager exhaustive")
+    chk.add_tlc(res)
+    hists = [dict(h, preset=True) for h in res.prints]
+    if len(hists) < 100:
+        raise MachineryError(f"Manager exhaustive: only {len(hists)} histories")
+    return hists
 
 
 def run() -> int:
@@ -187,7 +210,12 @@ c_Fixed == {tla(FIXED_OBJ)}
         for mi, method in enumerate(methods[: 2 if t == "quick" else 4]):
             for h in members[mi * nmem:(mi + 1) * nmem] or members[:nmem]:
                 items.append({"hist": h["hist"], "finds": h["finds"], "method": method})
-    # every (method, snapshot) class also gets the canonical straight-line history as a member
+    # exhaustive part: every continuation of a configured manager (see manager_exhaustive)
+    exh = manager_exhaustive(chk, t)
+    for h in exh:
+        for method in (["NEARSQUARE"] if t == "quick" else ["NEARSQUARE", "BIRECTANGLE"]):
+            items.append({"hist": h["hist"], "finds": h["finds"], "method": method, "preset": True})
+    chk.note("manager_histories_exhaustive", len(exh))
     res_by_class = {}
     outs = parallel_map(_exec_manager_history, items)
     for it, r in zip(items, outs):
@@ -199,7 +227,7 @@ c_Fixed == {tla(FIXED_OBJ)}
             raise MachineryError("history executed a different number of finds than the model")
         for f, out in zip(it["finds"], r["results"]):
             phys = dict(f["snap"])
-            key = (it["method"], snap_key(phys))
+            key = (it["method"], snap_key(phys))     # preset and free histories share classes: same physics, same expected result
             res_by_class.setdefault(key, []).append((out, it["hist"]))
     classes = 0
     for key, members in res_by_class.items():
